@@ -14,6 +14,7 @@ VERBS = ["get", "put", "post", "delete", "patch"]
 LEAF_WKT = {"google.protobuf.FieldMask", "google.protobuf.Timestamp", "google.protobuf.Duration"}
 SAFE_SEGS = ["i1", "s-2", "x.y", "a b", "é1", "v~1", "k_s", "A+B", "c;d=e", "q@r", "z,w", "7"]
 NON_RESERVED = ["klass", "origin"]
+DIGIT_NAMES = ["data_crc32c", "plaintext_crc32c", "api_v2beta", "utf8string_value", "x_2b", "oauth2flow_id", "sha256sum", "md5_hash_b64x"]
 
 
 # ------------------------------------------------------------------ API generator
@@ -71,6 +72,10 @@ def build_api(r, reserved_words, use_reserved=True, hostile=False):
             m.field("stamp", 37, ".google.protobuf.Timestamp", required=r.random() < 0.3)
         if r.random() < 0.4:
             m.field("page_size", 38, "int32", required=r.random() < 0.7)
+        # names with a letter after a digit in a later word: str.capitalize() and str.title() differ on them
+        # (crc32c -> Crc32c / Crc32C), so the lowerCamel key of the defaults table can drift from the JSON name
+        for k, nm in enumerate(r.sample(DIGIT_NAMES, r.randint(1, 2))):
+            m.field(nm, 40 + k, r.choice(["int32", "uint32", "string", "int64", "bool"]), required=r.random() < 0.85)
         return m, info
 
     def uri(info, version="v1"):
